@@ -4,6 +4,7 @@ import (
 	"bytes"
 	"encoding/hex"
 	"fmt"
+	"strings"
 )
 
 var jumpMnemonics = []string{"JA", "JAE", "JB", "JBE", "JC", "JE", "JG", "JGE", "JL", "JLE", "JMP", "JNA", "JNAE",
@@ -65,7 +66,71 @@ func filler(kind, n int) []PStmt {
 // c04Case builds one branch program.  d is the displacement the SHORTEST form
 // of the branch would encode (CALL has no short form: measured from its
 // near form in the mode).
+// c04Spelling: how a numeric target is written: 0 = a literal, 1 = relative to `$`, 2 = through a constant EQU.
+var c04Spelling = 0
+
 func c04Case(mn string, mode int, org int64, d int, fill int, labelsAfter bool, numeric bool) *ProgCase {
+	pc := c04CaseLit(mn, mode, org, d, fill, labelsAfter, numeric)
+	if pc == nil || !numeric || c04Spelling == 0 {
+		return pc
+	}
+	for i := range pc.P.Stmts {
+		s := &pc.P.Stmts[i]
+		if s.K != "jmp" || !s.Num {
+			continue
+		}
+		switch c04Spelling {
+		case 1:
+			// the branch's own address: origin + bytes before it; every statement before it has a size known from the source (a probe of 3/5/6 bytes or nothing)
+			o := org
+			if o < 0 {
+				o = 0
+			}
+			pre := int64(0)
+			if labelsAfter {
+				pre = 3
+				if probeReg(mode, 1).Class == R32 {
+					pre = 5
+					if mode == 16 {
+						pre = 6
+					}
+				}
+			}
+			if d < 0 {
+				// backward layout: target label first, then the filler, then the branch
+				short := 2
+				if mn == "CALL" {
+					short = 3
+					if mode == 32 {
+						short = 5
+					}
+				}
+				pre += int64(-d - short)
+			}
+			rel := s.N - (o + pre)
+			if rel >= 0 {
+				s.Text = fmt.Sprintf("$+%d", rel)
+			} else {
+				s.Text = fmt.Sprintf("$-%d", -rel)
+			}
+			pc.Ctx = strings.Replace(pc.Ctx, "|numeric|", "|numeric-dollar|", 1)
+		case 2:
+			s.Text = "TGT"
+			k := 0
+			for k < len(pc.P.Stmts) && (pc.P.Stmts[k].K == "org" || pc.P.Stmts[k].K == "bits") {
+				k++
+			}
+			rest := append([]PStmt{}, pc.P.Stmts[k:]...)
+			pc.P.Stmts = append(append(pc.P.Stmts[:k:k], PStmt{K: "equ", Label: "TGT", Text: fmt.Sprintf("0x%x", s.N), N: s.N}), rest...)
+			pc.Ctx = strings.Replace(pc.Ctx, "|numeric|", "|numeric-equ|", 1)
+		}
+		break
+	}
+	pc.Cell_ += fmt.Sprintf(" spelling=%d", c04Spelling)
+	return pc
+}
+
+func c04CaseLit(mn string, mode int, org int64, d int, fill int, labelsAfter bool, numeric bool) *ProgCase {
 	p := Prog{}
 	if org >= 0 {
 		p.Stmts = append(p.Stmts, PStmt{K: "org", N: org})
@@ -350,6 +415,14 @@ func init() {
 					}
 					if (mn == "JMP" || mn == "CALL" || mn == "JE" || mn == "JNZ" || mn == "JC") && (env.Tier == "thorough" || k%3 == 0) {
 						add(c04Case(mn, mode, orgs[(k+2)%len(orgs)], d, 0, k%2 == 0, true))
+						if mode == 32 || env.Tier == "thorough" {
+							// the same target written relative to `$` and through a constant EQU (16-bit numeric targets are finding F402 whatever the spelling)
+							c04Spelling = 1
+							add(c04Case(mn, mode, orgs[(k+2)%len(orgs)], d, 0, k%2 == 0, true))
+							c04Spelling = 2
+							add(c04Case(mn, mode, orgs[(k+1)%len(orgs)], d, 0, k%2 == 1, true))
+							c04Spelling = 0
+						}
 					}
 				}
 			}
@@ -391,7 +464,7 @@ func init() {
 				}
 			}
 		}
-		rep.Rule = "one program per (31 jump mnemonics + CALL) x displacement d in [-140,140] and +-{32760..32775} measured from the end of the shortest form x forward/backward x filler (RESB, NOPs, DB) x label/numeric target x ORG in {none,0x100,0x7c00,0xfff0} x BITS, with and without labels after the branch; every mnemonic right after / long before a [BITS] directive that changes the mode (4 layouts x 4 distances x both directions of the switch); 32-bit branches between far-apart addresses of the 4 GiB space and in code placed above 2^31 (5 origins x 5 numeric targets, label targets 5 and 200 bytes ahead and behind); a refusal of a reachable branch or of an existing far-jump form is a violation; far JMP seg:off (with/without DWORD) for boundary selector/offset values; " +
+		rep.Rule = "one program per (31 jump mnemonics + CALL) x displacement d in [-140,140] and +-{32760..32775} measured from the end of the shortest form x forward/backward x filler (RESB, NOPs, DB) x label/numeric target (numeric ones also written `$+k` / `$-k` and through a constant EQU) x ORG in {none,0x100,0x7c00,0xfff0} x BITS, with and without labels after the branch; every mnemonic right after / long before a [BITS] directive that changes the mode (4 layouts x 4 distances x both directions of the switch); 32-bit branches between far-apart addresses of the 4 GiB space and in code placed above 2^31 (5 origins x 5 numeric targets, label targets 5 and 200 bytes ahead and behind); a refusal of a reachable branch or of an existing far-jump form is a violation; far JMP seg:off (with/without DWORD) for boundary selector/offset values; " +
 			"oracle: the walker finds the branch, the reference decoder gives its condition and displacement, address(next)+disp must equal the true address of the target statement, and a label after the branch must have its true value (size agreement); " +
 			"thorough enumerates the whole product, quick takes every mnemonic at every boundary distance plus a seeded sample; non-trivial = accepted and judged; distinct = (mnemonic, mode, target kind, direction, distance class, labels-after) cells"
 		if env.Tier == "thorough" {
